@@ -55,6 +55,9 @@ def gen_routes(rng):
 
 
 # ---- iptables: a rule is a list of options (neg, key, args) in Netspoc spelling ----
+NOARG = ['--log-ip-options', '--log-tcp-options', '--log-uid', '--log-tcp-sequence']
+
+
 def gen_rule(rng, chains):
     o = []
     if rng.random() < 0.6:
@@ -87,6 +90,9 @@ def gen_rule(rng, chains):
     elif t < 0.87:
         o.append((False, '-j', ['LOG']))
         o.append((False, '--log-level', [rng.choice(['debug', '7', 'info'])]))
+        if rng.random() < 0.5:
+            # options without argument
+            o.append((False, rng.choice(NOARG), []))
     else:
         o.append((False, '-j', ['MARK']))
         if rng.random() < 0.7:
@@ -187,6 +193,13 @@ def edit_tables(rng, tabs):
         neg, k, args = r[j]
         m = rng.random()
         marks = [x for x in range(len(r)) if r[x][1] == '--set-mark']
+        noarg = [x for x in range(len(r)) if r[x][1] in NOARG]
+        if noarg and rng.random() < 0.6:
+            # another option without argument in its place: same number of options, no value differs
+            x = noarg[0]
+            r[x] = (False, rng.choice([n for n in NOARG if n != r[x][1]]), [])
+            c['rules'][i] = r
+            return t
         if marks and rng.random() < 0.5:
             # the same value written with a mask that is not the default one
             x = marks[0]
